@@ -98,7 +98,7 @@ def gen_case(rng, srcs, i, signed_ing):
         if rel == "parentOf" and have_parent:
             rel = "componentOf"
         have_parent |= rel == "parentOf"
-        isrc = signed_ing if (signed_ing and rng.random() < 0.3 and version == 2) else rng.choice(
+        isrc = rng.choice(signed_ing if isinstance(signed_ing, list) else [signed_ing]) if (signed_ing and rng.random() < 0.3 and version == 2) else rng.choice(
             [{"fixture": "libpng-test.png", "fmt": "image/png"}, {"hex": G.gif().hex(), "fmt": "image/gif"}, {"hex": G.wav().hex(), "fmt": "audio/wav"}])
         ings.append({"json": {"title": "ing %d %s" % (j, G.gen_string(rng, 4)), "relationship": rel, "label": "ing%d" % j}, "src": isrc})
     if ings:
@@ -130,11 +130,25 @@ def gen_case(rng, srcs, i, signed_ing):
         if rng.random() < 0.35:
             a["created"] = True
         asserts.append(a)
-    if rng.random() < 0.12:
-        asserts.append({"label": "stds.exif", "data": {"@context": {"exif": "http://ns.adobe.com/exif/1.0/"}, "exif:GPSLatitude": "39,21.102N"}})
-    if rng.random() < 0.12:
-        asserts.append({"label": rng.choice(["org.verif.metadata", "com.verif-2.metadata"]), "kind": "Json",
-                        "data": {"@context": {"dc": "http://purl.org/dc/elements/1.1/"}, "dc:subject": G.gen_string(rng, 5)}})
+    # well-known metadata labels (each has its own arm, or the user arm, in to_claim): kinds and created flags vary
+    if rng.random() < 0.3:
+        wk = rng.choice(["stds.exif", "stds.exif", "stds.iptc", "stds.iptc.photo-metadata", "stds.schema-org.CreativeWork",
+                         "org.verif.metadata", "com.verif-2.metadata"])
+        if wk == "stds.exif":
+            data = {"@context": {"exif": "http://ns.adobe.com/exif/1.0/"}, "exif:GPSLatitude": "39,21.102N"}
+        elif wk.startswith("stds.iptc"):
+            data = {"@context": {"Iptc4xmpExt": "http://iptc.org/std/Iptc4xmpExt/2008-02-29/", "dc": "http://purl.org/dc/elements/1.1/"},
+                    "dc:creator": [G.gen_string(rng, 4)]}
+        elif wk == "stds.schema-org.CreativeWork":
+            data = {"@context": "https://schema.org", "@type": "CreativeWork", "author": [{"@type": "Person", "name": G.gen_string(rng, 5)}]}
+        else:
+            data = {"@context": {"dc": "http://purl.org/dc/elements/1.1/"}, "dc:subject": G.gen_string(rng, 5)}
+        a = {"label": wk, "data": data}
+        if rng.random() < 0.5 or wk.endswith(".metadata"):
+            a["kind"] = "Json"
+        if rng.random() < 0.5:
+            a["created"] = True
+        asserts.append(a)
     if rng.random() < 0.5:
         a0 = asserts.pop(0)
         asserts.insert(rng.randrange(len(asserts) + 1), a0)
@@ -272,7 +286,7 @@ def check_report(case, r, ctx, stats):
         used[hit] = True
         ra = reported[hit]
         ra["_src"] = idx
-        want_json = a.get("kind") == "Json" or a["label"] == "stds.exif" or a["label"].endswith(".metadata")
+        want_json = a.get("kind") == "Json" or a["label"] in ("stds.exif", "stds.schema-org.CreativeWork") or a["label"].endswith(".metadata")
         if lab != "c2pa.actions.v2" and (ra.get("kind") == "Json") != want_json:
             out.append(("assertion %s kind %s reported as %s" % (a["label"], a.get("kind", "Cbor"), ra.get("kind", "Cbor")), None))
         if case["meta"]["version"] >= 2 and bool(ra.get("created")) != bool(a.get("created")):
@@ -285,6 +299,7 @@ def check_report(case, r, ctx, stats):
             sub = (not a.get("created")) and any(me in u for u in urls)
             mi = dict(case)
             mi["created_substring"] = bool(sub)
+            mi["creative_work_created"] = a["label"] == "stds.schema-org.CreativeWork" and bool(a.get("created"))
             out.append(("assertion #%d %s supplied as %s but reported as %s" % (idx, a["label"], "created" if a.get("created") else "gathered",
                                                                             "created" if ra.get("created") else "gathered"), mi))
     for k, ra in enumerate(reported):
